@@ -64,10 +64,11 @@ class NativeFactory:
             return (a + a.T) / 2 + n * np.eye(n)
         if tri:
             a = np.tril(a) if tri == "lower" else np.triu(a)
-            a[np.diag_indices(n)] = self.rng.uniform(0.5, 2.0, n)
+            # a triangular parameter may have diagonal entries of either sign (sign * F F^T does not depend on them)
+            a[np.diag_indices(n)] = self.rng.uniform(0.5, 2.0, n) * np.where(np.arange(n) % 2 == 0, 1.0, -1.0)
             return a
-        if n == m:  # triangular parts of a full array need a non-zero diagonal too
-            return a + 2 * n * np.eye(n)
+        if n == m:  # triangular parts of a full array need a non-zero diagonal too (either sign)
+            return a + 2 * n * np.diag(np.where(np.arange(n) % 2 == 0, 1.0, -1.0))
         return a * 0.4
 
     def diagvec(self, name, d, positive):
